@@ -113,6 +113,7 @@ def prog_task(task):
         except Exception as e:
             out["fails"].append({"kind": "program", "prog": show(prog), "clause": "constructor", "detail": repr(e)[:200], "seed": seed})
             continue
+        held = []   # results the caller still holds while it makes further calls on the same object
         for dname, den in (("forward", st["fwd"]), ("inverse", st["inv"])):
             out["n"] += 1
             # oracle of the property itself: hand-chained parts in the denoted order
@@ -128,12 +129,17 @@ def prog_task(task):
                 except Exception as e:
                     out["fails"].append({"kind": "program", "prog": show(prog), "clause": "call_raises", "dir": dname, "detail": repr(e)[:200], "seed": seed})
                     continue
+            held.append((dname, ry, rl, ry.clone(), rl.clone()))
             if ry.dtype != y.dtype or rl.dtype != lad.dtype:
                 out["fails"].append({"kind": "program", "prog": show(prog), "clause": "outputs", "dir": dname, "detail": "%s returns %s / %s for float64 inputs after program.double(): the conversion did not reach every part" % (dname, ry.dtype, rl.dtype), "seed": seed})
             elif ry.shape != y.shape or not torch.allclose(ry, y, rtol=1e-10, atol=1e-10):
                 out["fails"].append({"kind": "program", "prog": show(prog), "clause": "outputs", "dir": dname, "detail": "%s differs from the parts chained as %s (max diff %.3g)" % (dname, [(int(k), str(d)) for k, d in den], float((ry - y).abs().max())), "seed": seed})
             elif rl.shape != lad.shape or not torch.allclose(rl, lad, rtol=1e-10, atol=1e-10):
                 out["fails"].append({"kind": "program", "prog": show(prog), "clause": "logabsdet", "dir": dname, "detail": "%s logabsdet %s is not the sum over the parts %s" % (dname, rl.tolist(), lad.tolist()), "seed": seed})
+        for dname, ry, rl, ry0, rl0 in held:
+            if not torch.equal(ry, ry0) or not torch.equal(rl, rl0):
+                out["fails"].append({"kind": "program", "prog": show(prog), "clause": "logabsdet", "dir": dname, "detail": "the result of %s changed while the caller made the next call on the same composite (outputs %s, logabsdet %s -> %s): the sum of the parts' log-dets is not the value that was returned" % (dname, "unchanged" if torch.equal(ry, ry0) else "changed", rl0.tolist(), rl.tolist()), "seed": seed})
+                break
     if len(task) > 2:
         for f in out["fails"]:
             f["rot"] = task[2]
@@ -160,11 +166,30 @@ def ms_task(task):
         N = len(route)
         case = {"kind": "multiscale", "shape": shape, "split_dim": d, "stages": n, "seed": seed}
         shifts = [float(10 ** (i + 2)) for i in range(n)]  # stage i: y = x * p_i + 10^(i+2)
+        # every second configuration: stages that also add a per-row context value (c_b = 1/4, 1/2): the
+        # context must reach every stage, in both directions
+        use_ctx = (N + d + n) % 2 == 0
+        cvals = torch.tensor([[0.25], [0.5]], dtype=torch.float64)
+
+        class CtxAffine(TR.Transform):
+            def __init__(self, scale, shift):
+                super().__init__()
+                self.scale, self.shift = scale, shift
+
+            def _c(self, t, context):
+                return context[:, 0].reshape(-1, *([1] * (t.dim() - 1)))
+
+            def forward(self, inputs, context=None):
+                return inputs * self.scale + self.shift + self._c(inputs, context), inputs.new_full((inputs.shape[0],), math.log(self.scale) * inputs[0].numel())
+
+            def inverse(self, inputs, context=None):
+                return (inputs - self.shift - self._c(inputs, context)) / self.scale, inputs.new_full((inputs.shape[0],), -math.log(self.scale) * inputs[0].numel())
+
         try:
             m = TR.MultiscaleCompositeTransform(n, split_dim=d)
             sh = tuple(shape)
             for i in range(n):
-                sh = m.add_transform(TR.PointwiseAffineTransform(shift=shifts[i], scale=PRIMES[i]), sh)
+                sh = m.add_transform(CtxAffine(PRIMES[i], shifts[i]) if use_ctx else TR.PointwiseAffineTransform(shift=shifts[i], scale=PRIMES[i]), sh)
         except Exception as e:
             out["drift"].append("add_transform rejects shape %s split_dim %d stages %d accepted by the specification: %r" % (shape, d, n, e))
             continue
@@ -175,7 +200,7 @@ def ms_task(task):
         out["n"] += 1
         try:
             with torch.no_grad():
-                y, lad = m.forward(x.clone())
+                y, lad = m.forward(x.clone(), cvals) if use_ctx else m.forward(x.clone())
         except Exception as e:
             out["fails"].append(dict(case, clause="call_raises", detail="forward: %r" % (e,)))
             continue
@@ -183,7 +208,7 @@ def ms_task(task):
         for p in range(N):
             v = xf[:, route[p]].clone()
             for i in range(stages[p]):
-                v = v * PRIMES[i] + shifts[i]
+                v = v * PRIMES[i] + shifts[i] + (cvals[:, 0] if use_ctx else 0.0)
             exp[:, p] = v
         elad = sum(sum(1 for p in range(N) if stages[p] >= i + 1) * math.log(PRIMES[i]) for i in range(n))
         if tuple(y.shape) != (B, N) or not torch.equal(y, exp):
@@ -196,7 +221,7 @@ def ms_task(task):
         out["n"] += 1
         try:
             with torch.no_grad():
-                xr, lad2 = m.inverse(y)
+                xr, lad2 = m.inverse(y, cvals) if use_ctx else m.inverse(y)
         except Exception as e:
             out["fails"].append(dict(case, clause="call_raises", detail="inverse: %r" % (e,)))
             continue
@@ -208,7 +233,7 @@ def ms_task(task):
         z = torch.arange(B * N, dtype=torch.float64).reshape(B, N) * 30.0 + 7.0
         with torch.no_grad():
             try:
-                w, _ = m.inverse(z.clone())
+                w, _ = m.inverse(z.clone(), cvals) if use_ctx else m.inverse(z.clone())
             except Exception as e:
                 out["fails"].append(dict(case, clause="call_raises", detail="inverse: %r" % (e,)))
                 continue
@@ -218,7 +243,7 @@ def ms_task(task):
             slot = back[q]
             v = z[:, slot].clone()
             for i in reversed(range(stages[slot])):
-                v = (v - shifts[i]) / PRIMES[i]
+                v = (v - shifts[i] - (cvals[:, 0] if use_ctx else 0.0)) / PRIMES[i]
             expw[:, q] = v
         if wf.shape != expw.shape or not torch.allclose(wf, expw, rtol=1e-12, atol=1e-9):
             out["fails"].append(dict(case, clause="inverse_routing", detail="inverse places flat slots differently from the documented routing for shape %s split_dim %d" % (shape, d)))
